@@ -4,7 +4,7 @@ Independent of chi: built from the documented layout and densities.
 All functions are complex-safe so that gradients come from complex steps.
 """
 import numpy as np
-from scipy.special import erf
+from scipy.special import erf, erfc     # noqa
 
 LOG2PI = np.log(2 * np.pi)
 
@@ -25,7 +25,9 @@ def logpdf_lognormal(x, mu, sd):
 
 def logpdf_truncgauss(x, mu, sd):
     # Gaussian truncated to x > 0
-    phi = 0.5 * (1 + erf(mu / sd / np.sqrt(2)))   # = 1 - Phi(-mu/sd)
+    # 1 - Phi(-mu/sd) = erfc(-mu/sd/sqrt(2)) / 2: no cancellation in the
+    # lower tail (mu/sd << 0); erfc is complex-safe
+    phi = 0.5 * erfc(-mu / sd / np.sqrt(2))
     return lognorm_pdf_gauss(x, mu, sd) - np.log(phi)
 
 
